@@ -507,8 +507,70 @@ func scenarios(thorough bool) []scenario {
 	return s
 }
 
+// interfPass runs the statement-level exploration (binary with a scheduling point before every statement of hc's
+// packages) of the pairs "two writers on one connection", "a writer and the reader", "writers on two connections",
+// "a write that notifies another connection" and files its report under this check.
+func interfPass(c *fw.Ctx) {
+	exe, _ := os.Executable()
+	bin := filepath.Join(filepath.Dir(exe), "vsched-yield")
+	if _, err := os.Stat(bin); err != nil {
+		bin = filepath.Join(os.Getenv("VERIF_ROOT"), ".build", "vsched-yield")
+	}
+	if _, err := os.Stat(bin); err != nil {
+		c.Note("statement-level interleavings skipped: vsched-yield not built")
+		return
+	}
+	tier := "quick"
+	if c.Thorough() {
+		tier = "thorough"
+	}
+	out, err := exec.Command(bin, "interf", tier, "0", "1", c.Scratch, "C08").CombinedOutput()
+	var rep struct {
+		Pairs []struct {
+			A          string
+			Bound      int
+			Schedules  int
+			Points     int
+			Exhaustive bool
+		} `json:"pairs"`
+		Violations []struct {
+			Sig  string          `json:"sig"`
+			Desc string          `json:"desc"`
+			Case json.RawMessage `json:"case"`
+		} `json:"violations"`
+		Infra string `json:"infra"`
+	}
+	found := false
+	for _, l := range strings.Split(string(out), "\n") {
+		if strings.HasPrefix(l, "INTERF-REPORT ") {
+			found = json.Unmarshal([]byte(strings.TrimPrefix(l, "INTERF-REPORT ")), &rep) == nil
+		}
+	}
+	if !found || rep.Infra != "" {
+		c.Infra(fmt.Sprintf("statement-level interleavings: %v %s %s", err, rep.Infra, lastLine(string(out))))
+		return
+	}
+	for _, p := range rep.Pairs {
+		c.Eval(p.Schedules)
+		c.State(p.Schedules)
+		c.Trace(p.Schedules)
+		c.Transition(p.Points)
+		c.Class("statement-level:" + p.A)
+		c.Note(fmt.Sprintf("statement-level interleavings of %q: %d schedules, preemption bound %d", p.A, p.Schedules, p.Bound))
+		if !p.Exhaustive {
+			c.NotExhaustive("statement-level interleavings of " + p.A + ": deadline or un-modelled blocking")
+		}
+	}
+	for _, v := range rep.Violations {
+		c.Report(v.Sig, v.Desc, v.Case)
+	}
+}
+
 func run(c *fw.Ctx) {
 	hclog.Info.Disable()
+	if c.Shard == 0 {
+		interfPass(c)
+	}
 	sc := scenarios(c.Thorough())
 	if c.Shard == c.NShards-1 && c.NShards > 1 {
 		racePass(c)
@@ -646,6 +708,22 @@ func FreeRun() {
 }
 
 func replay(c *fw.Ctx, raw json.RawMessage) {
+	var k struct {
+		Kind string `json:"kind"`
+	}
+	if json.Unmarshal(raw, &k) == nil && k.Kind == "interference-schedule" {
+		exe, _ := os.Executable()
+		bin := filepath.Join(filepath.Dir(exe), "vsched-yield")
+		if _, err := os.Stat(bin); err != nil {
+			bin = filepath.Join(os.Getenv("VERIF_ROOT"), ".build", "vsched-yield")
+		}
+		out, _ := exec.Command(bin, "interf-replay", c.Scratch, string(raw)).CombinedOutput()
+		c.Eval(1)
+		if strings.Contains(string(out), `"violations":[{`) {
+			c.Report("interference/replayed", "the recorded schedule still fails: "+lastLine(string(out)), raw)
+		}
+		return
+	}
 	var cas Case
 	json.Unmarshal(raw, &cas)
 	if len(cas.Writers) == 1 && len(cas.Writers[0]) == 1 && cas.Writers[0][0] == -1 {
@@ -660,7 +738,7 @@ func init() {
 	fw.Register(&fw.Check{
 		ID:    "C08",
 		Level: "model_checking",
-		Rule:  "stateless exploration of goroutine interleavings under a cooperative scheduler with iterative preemption bounding: 2–5 writer goroutines × 1–3 Connection.Write calls with one- and two-frame payloads, keep-alive rounds sent by hap.KeepAlive itself, and EVENTs written by the notifyListener of a real (not started) IP transport after an application value change, over a socket that stalls in the middle of every write (a write deadline armed meanwhile expires for the write in flight), the connection's own reader opening an incoming two-frame request whose ciphertext arrives in five pieces (each arrival a scheduling point) while writes are in flight, and a writer on another connection of the same accessory, on a real hap.Connection with a real secure session; scheduling points = every Lock of a sync.Mutex/RWMutex and every Wait of a sync.Cond in packages hap and crypto (import rewritten to a shim through go build -overlay) and every socket Write; per schedule the captured wire must decrypt front to back with counters in arrival order (reference AEAD) and be a sequence of whole payloads (the same for the other connection's wire), and the reader must get the request intact. 2-writer scenarios unbounded, larger ones preemption bound 2 (thorough: unbounded / 3). Plus a free-running pass of the same bodies in a -race build. distinct_nontrivial = distinct (scenario, wire record order) outcomes — more than one per scenario means writers really collided",
+		Rule:  "stateless exploration of goroutine interleavings under a cooperative scheduler with iterative preemption bounding: 2–5 writer goroutines × 1–3 Connection.Write calls with one- and two-frame payloads, keep-alive rounds sent by hap.KeepAlive itself, and EVENTs written by the notifyListener of a real (not started) IP transport after an application value change, over a socket that stalls in the middle of every write (a write deadline armed meanwhile expires for the write in flight), the connection's own reader opening an incoming two-frame request whose ciphertext arrives in five pieces (each arrival a scheduling point) while writes are in flight, and a writer on another connection of the same accessory, on a real hap.Connection with a real secure session; scheduling points = every Lock of a sync.Mutex/RWMutex and every Wait of a sync.Cond in packages hap and crypto (import rewritten to a shim through go build -overlay) and every socket Write; per schedule the captured wire must decrypt front to back with counters in arrival order (reference AEAD) and be a sequence of whole payloads (the same for the other connection's wire), and the reader must get the request intact. 2-writer scenarios unbounded, larger ones preemption bound 2 (thorough: unbounded / 3). Plus the same questions at STATEMENT granularity (subprocess built with a scheduling point before every statement of hc's packages, preemption bound 1 / 2): two writers on one connection, a writer and the reader, writers on two connections, a write that notifies another connection. Plus a free-running pass of the same bodies in a -race build. distinct_nontrivial = distinct (scenario, wire record order) outcomes — more than one per scenario means writers really collided",
 		Shards: func(t string) int {
 			if t == "thorough" {
 				return 16
